@@ -104,6 +104,25 @@ def main():
             cdata_repaired = False
         else:
             raise ValueError("writeCDATAChars has neither the repaired nor the unrepaired shape the model knows")
+        cdata_refs = "XalanUnicode::charCR==theChar||" in wcc and "writeNumericCharacterReference(theChar);" in wcc
+        # the two character-class tables of XalanXMLSerializerBase.cpp
+        base_cpp = strip_comments(open(os.path.join(XMLS, "XalanXMLSerializerBase.cpp"), encoding="utf-8", errors="replace").read())
+        base_hpp = strip_comments(open(os.path.join(XMLS, "XalanXMLSerializerBase.hpp"), encoding="utf-8", errors="replace").read())
+        enum = dict((k, int(v)) for k, v in re.findall(r"\b(eNone|eAttr|eBoth|eForb|eCRFb)\s*=\s*(\d+)u", base_hpp))
+        if sorted(enum) != ["eAttr", "eBoth", "eCRFb", "eForb", "eNone"]:
+            raise ValueError("character class enum of XalanXMLSerializerBase.hpp not found")
+        tables = {}
+        for ver in ("1_0", "1_1"):
+            m = re.search(r"CharFunctor%s::s_specialChars\s*\[[^\]]*\]\s*=\s*\{([^}]*)\}" % ver, base_cpp)
+            ml = re.search(r"CharFunctor%s::s_lastSpecial\s*=\s*(0x[0-9a-fA-F]+)u" % ver, base_cpp)
+            if not m or not ml:
+                raise ValueError("CharFunctor%s table not found" % ver)
+            vals = [enum[x.strip()] for x in m.group(1).split(",") if x.strip()]
+            size = int(ml.group(1), 16) + 1
+            if len(vals) > size:
+                raise ValueError("CharFunctor%s table has %d entries, s_lastSpecial says %d" % (ver, len(vals), size))
+            vals += [0] * (size - len(vals))      # missing trailing initialisers are zero (eNone) in C++
+            tables[ver] = vals
         if "m_indentHandler" not in src:
             raise ValueError("FormatterToXMLUnicode.hpp no longer has an m_indentHandler member")
         cps = [(f, calls_of(body_of(src, f))) for f in FNS]
@@ -138,6 +157,12 @@ def main():
     out.append("def legacyRawSetsPrevText : Bool := %s" % str("m_isprevtext=true;" in legacy_raw).lower())
     out.append("/-- writeCDATAChars: repaired shape (section re-opened before a `]]>` met outside, nothing written at the end) -/")
     out.append("def cdataCharsRepaired : Bool := %s" % str(cdata_repaired).lower())
+    out.append("/-- writeCDATAChars leaves the section to write CR (and, in XML 1.1, NEL, LSEP and the restricted characters) as a reference -/")
+    out.append("def cdataRefsLineEnds : Bool := %s" % str(cdata_refs).lower())
+    out.append("/-- character classes (eNone 0, eAttr 1, eBoth 2, eForb 4, eCRFb 5) of CharFunctor1_0 / CharFunctor1_1, index = code point -/")
+    out.append("def classEnum : List (String × Nat) := [%s]" % ", ".join('("%s", %d)' % (k, enum[k]) for k in ["eNone", "eAttr", "eBoth", "eForb", "eCRFb"]))
+    out.append("def charTable10 : List Nat := [%s]" % ", ".join(map(str, tables["1_0"])))
+    out.append("def charTable11 : List Nat := [%s]" % ", ".join(map(str, tables["1_1"])))
     out.append("end XalanModel.Generated.C08")
     txt = "\n".join(out) + "\n"
     os.makedirs(common.GEN, exist_ok=True)
